@@ -7,7 +7,10 @@
 // rt -> (client, granted scopes, sub, aud, auth_time, live). A step performs ONE
 // real request against the token endpoint of one router and judges the response
 // AND the storage journal against the automaton, which is written from the
-// property statement.
+// property statement. The storage is refstore behind retStore (storage_test.go),
+// which records what the rotation call returned; in the storage parts an operation
+// may also select an unusual answer of that call (!ret=...) or make one storage
+// call of the request fail (!fault=<Method>#<occurrence>:<error kind>).
 package c07
 
 import (
@@ -18,6 +21,7 @@ import (
 	"mime/multipart"
 	"net/http/httptest"
 	"net/url"
+	"os"
 	"slices"
 	"sort"
 	"strings"
@@ -101,6 +105,14 @@ type alphabet struct {
 	Lapse       []string   // clients whose refresh-grant registration can be withdrawn in mid-history (operation lapse|<client>)
 	OwnerScopes []scopeDef // further scope lists, sent in the plain request shape by the plainly authenticated callers (Authed yes) only
 	Flags       bool       // methods run: the part is additionally built for the provider flags AuthMethodPost / AuthMethodPrivateKeyJWT on and off
+
+	// storage dimensions (storage_test.go); the scope lists are named like those of Scopes / OwnerScopes
+	Rets         []string // answers of the rotation call besides the normal one (empty | same | odd): sent by the plainly authenticated owner of every current token
+	RetScopes    []string // ... with these scope lists
+	FaultKinds   []string // error values a failing storage call returns; every (method, occurrence) of the caller's probe journal fails once with each
+	FaultScopes  []string // ... with these scope lists
+	FaultOld     bool     // ... also presenting the rotated-away token
+	FaultForeign bool     // ... also sent by the other plainly authenticated callers (quick: the token's owner only)
 }
 
 const (
@@ -430,6 +442,9 @@ type part struct {
 	A         alphabet
 	c         *engine.Check
 	t         *testing.T
+
+	faultPts map[string][]string // caller -> (method#occurrence) of the storage calls its refresh request makes (probe)
+	capOnce  sync.Once
 }
 
 func (p *part) name() string {
@@ -474,7 +489,8 @@ func (p *part) newRig(init bool) *rig.Rig {
 		oc.AuthMethodPost = p.PostOn
 		oc.AuthMethodPrivateKeyJWT = p.JwtOn
 	}
-	return rig.MustNew(rig.Opts{Cfg: config(init), OP: oc})
+	r, _ := newWrappedRig(config(init), oc)
+	return r
 }
 
 var (
@@ -605,7 +621,92 @@ func (p *part) ops(s *state) []string {
 			}
 		}
 	}
+	// storage dimensions: plain request shape, the storage answers the rotation call in an unusual way / one storage call fails
+	for i, f := range p.A.Fams {
+		for ci := range p.A.Callers {
+			c := &p.A.Callers[ci]
+			if c.Authed != "yes" {
+				continue
+			}
+			owner := c.Client == f.Client
+			if owner && s.Fam[i].Cur != "" {
+				for _, m := range p.A.Rets {
+					for _, sc := range p.A.RetScopes {
+						out = append(out, "refresh|"+f.Name+".cur|"+c.Name+"|"+sc+"!ret="+m)
+					}
+				}
+			}
+			if !owner && !p.A.FaultForeign {
+				continue
+			}
+			var refs []string
+			if s.Fam[i].Cur != "" {
+				refs = append(refs, f.Name+".cur")
+			}
+			if s.Fam[i].Old != "" && p.A.FaultOld {
+				refs = append(refs, f.Name+".old")
+			}
+			for _, ref := range refs {
+				for _, sc := range p.A.FaultScopes {
+					for _, pt := range p.faultPts[c.Name] {
+						for _, k := range p.A.FaultKinds {
+							out = append(out, "refresh|"+ref+"|"+c.Name+"|"+sc+"!fault="+pt+":"+k)
+						}
+						if strings.HasPrefix(pt, "CreateAccess") {
+							for _, k := range p.A.FaultKinds {
+								out = append(out, "refresh|"+ref+"|"+c.Name+"|"+sc+"!fault="+pt+":"+k+dirtySuffix)
+							}
+						}
+					}
+				}
+			}
+		}
+	}
 	return out
+}
+
+// probe finds, for every plainly authenticated caller, the storage calls its refresh request makes: one unfaulted
+// request (scope list absent) from the initial state, presenting the current token of a family of its own (else of
+// the first family). The (method, occurrence) pairs of that journal are the positions at which faults are injected.
+func (p *part) probe(init *state) {
+	p.faultPts = map[string][]string{}
+	if len(p.A.FaultKinds) == 0 {
+		return
+	}
+	w := p.newWorker()
+	for ci := range p.A.Callers {
+		cd := &p.A.Callers[ci]
+		if cd.Authed != "yes" {
+			continue
+		}
+		fam := -1
+		for i, f := range p.A.Fams {
+			if init.Fam[i].Cur != "" && (fam < 0 || (f.Client == cd.Client && p.A.Fams[fam].Client != cd.Client)) {
+				fam = i
+			}
+		}
+		if fam < 0 {
+			p.c.Internal(p.name() + ": fault dimension needs a family that holds a refresh token in the initial state")
+			return
+		}
+		params, auth, _, ok := buildRequest(cd, cidDefault, p.A.Fams[fam].Client, init.Fam[fam].Cur, true, "-")
+		if !ok {
+			p.c.Internal(p.name() + ": probe request of caller " + cd.Name + " cannot be built")
+			return
+		}
+		var pts []string
+		pan := engine.Bubble(p.t, stepOffset, func() {
+			w.r.Core.Reset(init.St.Clone())
+			w.ws.begin(retNormal, false)
+			w.send(chanBody, params, auth)
+			pts = journalPoints(w.r.Core.JournalCopy())
+		})
+		if pan != "" || len(pts) == 0 {
+			p.c.Internal(fmt.Sprintf("%s: probe request of caller %s: panic %q, %d storage calls", p.name(), cd.Name, pan, len(pts)))
+			return
+		}
+		p.faultPts[cd.Name] = pts
+	}
 }
 
 // defaultCid: the form client_id the authentication method itself prescribes.
@@ -684,15 +785,22 @@ func (p *part) famIndex(name string) int {
 type worker struct {
 	p        *part
 	r        *rig.Rig
-	advanced bool // set by exec when the state (storage + automaton) moved on consistently
+	ws       *retStore // the rig's storage (r.Storage)
+	advanced bool      // set by exec when the state (storage + automaton) moved on consistently
+	leaf     bool      // set by exec: the transition is judged but does not continue the history, whatever the storage looks like
+}
+
+func (p *part) newWorker() *worker {
+	r := p.newRig(false)
+	return &worker{p: p, r: r, ws: r.Storage.(*retStore)}
 }
 
 func (p *part) newStep(int) func(*state, string) (*state, engine.Result) {
-	w := &worker{p: p, r: p.newRig(false)}
+	w := p.newWorker()
 	return func(s *state, op string) (*state, engine.Result) {
 		ns := s.clone()
 		var res engine.Result
-		w.advanced = false
+		w.advanced, w.leaf = false, false
 		// the worker's rig has its own configuration: bring the registrations to what this state says
 		for _, c := range p.A.Lapse {
 			setRefreshGrant(w.r.Core.Cfg.Clients[c], !slices.Contains(s.Lapsed, c))
@@ -706,7 +814,7 @@ func (p *part) newStep(int) func(*state, string) (*state, engine.Result) {
 		// storage (w.advanced). After a refusal that left the storage untouched the parent state
 		// itself is returned (states are immutable; saves the clone).
 		if !w.advanced {
-			if res.Sig == "" && (ns.St.Seq != s.St.Seq || len(ns.St.Refreshes) != len(s.St.Refreshes) || len(ns.St.Tokens) != len(s.St.Tokens)) {
+			if res.Sig == "" && !w.leaf && (ns.St.Seq != s.St.Seq || len(ns.St.Refreshes) != len(s.St.Refreshes) || len(ns.St.Tokens) != len(s.St.Tokens)) {
 				p.c.Internal(fmt.Sprintf("%s: storage changed on a transition judged as refusal: op %s", p.name(), op))
 			}
 			return s, res
@@ -716,7 +824,13 @@ func (p *part) newStep(int) func(*state, string) (*state, engine.Result) {
 }
 
 func (w *worker) exec(s *state, op string) engine.Result {
-	f := strings.Split(op, "|")
+	base, suffix, _ := strings.Cut(op, "!")
+	x, xok := parseExtra(suffix)
+	f := strings.Split(base, "|")
+	if !xok || (!x.plain() && f[0] != "refresh") {
+		w.p.c.Internal("bad op " + op)
+		return engine.OK("internal", "bad-op")
+	}
 	switch f[0] {
 	case "code":
 		i := w.p.famIndex(f[1])
@@ -734,7 +848,7 @@ func (w *worker) exec(s *state, op string) engine.Result {
 		if len(f) < 4 {
 			break
 		}
-		return w.doRefresh(s, f[1], f[2], f[3], cid, ch)
+		return w.doRefresh(s, f[1], f[2], f[3], cid, ch, x)
 	case "lapse":
 		// the registration of a client is edited between two requests: it keeps its tokens and loses
 		// the refresh grant (no request is made; newStep applies the registration of the state)
@@ -1067,7 +1181,7 @@ func shapeTag(cd *callerDef, cid, ch string) string {
 	return strings.Join(t, "+")
 }
 
-func (w *worker) doRefresh(s *state, tokRef, callerName, scopeName, cid, ch string) engine.Result {
+func (w *worker) doRefresh(s *state, tokRef, callerName, scopeName, cid, ch string, x opExtra) engine.Result {
 	p := w.p
 	var cd *callerDef
 	for i := range p.A.Callers {
@@ -1208,15 +1322,67 @@ func (w *worker) doRefresh(s *state, tokRef, callerName, scopeName, cid, ch stri
 
 	// ---- one real request ----
 	w.r.Core.Reset(s.St)
-	before := refstore.SortedKeys(s.St.Refreshes)
+	w.ws.begin(x.Ret, x.Dirty)
+	var ft *faultTrack
+	if x.Fault {
+		ft = armFault(w.r.Core, x)
+	}
 	resp := w.send(ch, params, auth)
+	w.r.Core.Fault = nil
 	o := observe(w.r, resp)
+	answered := slices.Clone(w.ws.calls) // the Create* calls of this request as the storage answered them
+	w.leaf = !x.plain()
 	rtr := p.router()
 
+	// ---- the storage's side of the request (storage_test.go) ----
+	var rotated *createCall // the rotation call the storage answered without error
+	answeredOK := 0
+	for i := range answered {
+		if answered[i].Err != nil {
+			continue
+		}
+		answeredOK++
+		if answered[i].Method == "CreateAccessAndRefreshTokens" && rotated == nil {
+			rotated = &answered[i]
+		}
+	}
+	gate := ""        // a storage call the statement's preconditions rest on failed before anything was rotated: must refuse
+	storOpen := false // a storage call failed elsewhere, or the storage answered the rotation in an unusual way: outcome open
+	xtag := ""        // rule suffix of a storage variant
+	issued := len(o.creates)
+	switch {
+	case x.Fault && !ft.Fired:
+		xtag = "!fault-not-reached" // the request never made that call: judged like the plain request
+	case x.Fault:
+		issued = answeredOK // the failed call itself created nothing
+		xtag = "!fault"
+		retried := false
+		for i, jc := range w.r.Core.JournalCopy() {
+			retried = retried || (i > ft.JIdx && jc.Method == x.Method)
+		}
+		if g := gateClass(x.Method, x.Occ); g != "" && !retried && (rotated == nil || rotated.JIdx > ft.JIdx) {
+			gate = g
+		} else {
+			storOpen = true
+		}
+	case x.Ret == retEmpty || x.Ret == retSame:
+		// the statement does not say that a framework must go on when the storage ends the chain or hands the old
+		// string back; when it does, the response carries exactly what the storage returned
+		storOpen = true
+		xtag = "!ret-" + x.Ret
+	case x.Ret != retNormal:
+		xtag = "!ret-" + x.Ret
+	}
+	either = either || (reason == "" && storOpen)
+
 	describe := func() string {
-		return fmt.Sprintf("token=%s caller=%s form-client_id=%s channel=%s scope=%q (class %s) -> %d %s %s; journal creates=%v; authenticated=%v contradictory=%t; model=%+v",
+		stor := ""
+		if !x.plain() {
+			stor = fmt.Sprintf(" storage variant: ret=%q fault=%s#%d:%s fired=%t; storage answered %+v;", x.Ret, x.Method, x.Occ, x.Kind, ft != nil && ft.Fired, answered)
+		}
+		return fmt.Sprintf("token=%s caller=%s form-client_id=%s channel=%s scope=%q (class %s) -> %d %s %s; journal creates=%v;%s authenticated=%v contradictory=%t; model=%+v",
 			tokRef, cd.Name, map[bool]string{true: cr.formID, false: "<absent>"}[cr.hasFormID], ch, sd.Value, scopeClass,
-			resp.Status, strings.TrimSpace(string(resp.Body)), resp.Panic, o.creates, cands, contradictory, info)
+			resp.Status, strings.TrimSpace(string(resp.Body)), resp.Panic, o.creates, stor, cands, contradictory, info)
 	}
 
 	// ---- must refuse ----
@@ -1228,6 +1394,7 @@ func (w *worker) doRefresh(s *state, tokRef, callerName, scopeName, cid, ch stri
 		if tag != "" {
 			rule += "@" + tag
 		}
+		rule += xtag
 		if o.served || o.leak {
 			switch reason {
 			case "disabled", "unauthenticated", "method-disabled", "grant-not-registered", "foreign-client":
@@ -1235,11 +1402,24 @@ func (w *worker) doRefresh(s *state, tokRef, callerName, scopeName, cid, ch stri
 			}
 			return engine.Bad(rule, o.class, "C07/served-"+reason+"/"+rtr+"/"+sigAuth, describe())
 		}
-		if len(o.creates) > 0 {
+		if issued > 0 {
 			return engine.Bad(rule, o.class, "C07/storage-create-on-refusal/"+rtr+"/"+reason, describe())
 		}
-		if wantInvalidScope && o.class != "panic" && o.errCode != "invalid_scope" {
+		if wantInvalidScope && (!x.Fault || !ft.Fired) && o.class != "panic" && o.errCode != "invalid_scope" {
 			return engine.Bad(rule, o.class, "C07/not-invalid_scope/"+rtr+"/"+scopeClass, describe())
+		}
+		return engine.OK(rule, o.class)
+	}
+
+	// ---- must refuse: the storage did not confirm a precondition / did not rotate ----
+	// "succeeds only for the authenticated client the token was issued to" and "on success the presented token is
+	// handed to the storage for rotation and the response carries the storage's new refresh token": a request during
+	// which the storage failed to name the client, to confirm its credentials, to find the token or to rotate it
+	// cannot be a success, whatever error value the storage used.
+	if gate != "" {
+		rule := "refuse:storage-failure:" + gate + ":" + x.Kind
+		if o.served || o.leak {
+			return engine.Bad(rule, o.class, "C07/served-despite-storage-failure/"+rtr+"/"+gate, describe())
 		}
 		return engine.OK(rule, o.class)
 	}
@@ -1249,45 +1429,72 @@ func (w *worker) doRefresh(s *state, tokRef, callerName, scopeName, cid, ch stri
 	switch {
 	case either && tag != "":
 		rule = "either@" + tag
+	case storOpen && x.Fault:
+		rule = "either:storage-failure:" + x.Method
+	case storOpen:
+		rule = "either:" + scopeClass + ":" + info.Client
 	case either:
 		rule = "either:" + scopeClass + ":" + cd.Name
 	case tag != "":
 		rule += "@" + tag
 	}
+	if !storOpen || !x.Fault {
+		rule += xtag
+	}
 	if !o.served {
 		if o.leak {
 			return engine.Bad(rule, o.class, "C07/token-in-error-response/"+rtr+"/"+sigAuth, describe())
 		}
-		if len(o.creates) > 0 {
+		if issued > 0 && !storOpen {
 			return engine.Bad(rule, o.class, "C07/storage-create-on-refusal/"+rtr+"/owner", describe())
 		}
 		if either {
+			if x.Fault && rotated != nil && rotated.Current == tok && fam >= 0 && s.Fam[fam].Cur == tok {
+				// a storage call failed after the storage had rotated the presented token and the request was answered
+				// with an error: the client never learns the new token, the presented one is used up
+				info.Live = false
+				if old := s.Fam[fam].Old; old != "" {
+					delete(s.Auto, old)
+				}
+				s.Fam[fam].Old = tok
+				s.Fam[fam].Cur = ""
+				w.advanced, w.leaf = true, false
+			}
 			return engine.OK(rule, o.class)
 		}
 		return engine.Bad(rule, o.class, "C07/refused-owner/"+rtr+"/"+scopeClass, describe())
 	}
 
-	// rotation: exactly one CreateAccessAndRefreshTokens(current = presented), nothing else
-	if len(o.creates) != 1 || o.creates[0].Method != "CreateAccessAndRefreshTokens" {
+	// rotation: exactly one CreateAccessAndRefreshTokens(current = presented), nothing else, and the storage
+	// answered it without error
+	if rotated == nil || answeredOK != 1 || (len(o.creates) != 1 && !storOpen) {
 		return engine.Bad(rule, o.class, "C07/no-rotation/"+rtr, describe())
 	}
-	call := o.creates[0]
-	if call.Args[3] != tok {
+	var call refstore.Call
+	if j := w.r.Core.JournalCopy(); rotated.JIdx >= 0 && rotated.JIdx < len(j) && j[rotated.JIdx].Method == "CreateAccessAndRefreshTokens" {
+		call = j[rotated.JIdx]
+	} else {
+		p.c.Internal(p.name() + ": the storage's record of the rotation call does not match the journal")
+		return engine.OK("internal", "journal-mismatch")
+	}
+	if call.Args[3] != tok || rotated.Current != tok {
 		return engine.Bad(rule, o.class, "C07/rotation-current-mismatch/"+rtr, describe())
 	}
-	var created []string
-	for _, k := range refstore.SortedKeys(s.St.Refreshes) {
-		if !slices.Contains(before, k) {
-			created = append(created, k)
+	// the response carries the storage's new refresh token: exactly what THAT call returned (nothing when it
+	// returned nothing), never another string - in particular not the presented one unless the storage returned it
+	newRT, _ := o.body["refresh_token"].(string)
+	if newRT != rotated.NewRT {
+		return engine.Bad(rule, o.class, "C07/refresh-token-not-from-storage/"+rtr+"/refresh",
+			describe()+fmt.Sprintf(" response refresh_token=%q, the storage returned %q (presented %q)", newRT, rotated.NewRT, tok))
+	}
+	var nr *refstore.Refresh // the storage's record of the new refresh token (nil: the storage ended the chain)
+	if rotated.NewRT != "" {
+		if nr = s.St.Refreshes[rotated.NewRT]; nr == nil {
+			p.c.Internal(fmt.Sprintf("%s: the storage returned refresh token %q and has no record of it", p.name(), rotated.NewRT))
+			return engine.OK("internal", "storage-record-missing")
 		}
 	}
-	newRT, _ := o.body["refresh_token"].(string)
-	if len(created) != 1 || created[0] != newRT || newRT == tok {
-		return engine.Bad(rule, o.class, "C07/refresh-token-not-from-storage/"+rtr+"/refresh",
-			describe()+fmt.Sprintf(" response refresh_token=%q storage created=%v", newRT, created))
-	}
-	nr := s.St.Refreshes[newRT]
-	na := s.St.Tokens[nr.Access]
+	na := s.St.Tokens[rotated.ID]
 
 	// scope: never grows; the issuance carries the requested (narrowed) set
 	want := info.Granted
@@ -1296,9 +1503,11 @@ func (w *worker) doRefresh(s *state, tokRef, callerName, scopeName, cid, ch stri
 	}
 	respScope, _ := o.body["scope"].(string)
 	effective := map[string][]string{
-		"response":      set(strings.Fields(respScope)),
-		"refresh-token": set(nr.Scopes),
-		"storage-call":  set(strings.Fields(call.Args[2])),
+		"response":     set(strings.Fields(respScope)),
+		"storage-call": set(strings.Fields(call.Args[2])),
+	}
+	if nr != nil {
+		effective["refresh-token"] = set(nr.Scopes)
 	}
 	if na != nil {
 		effective["access-token"] = set(na.Scopes)
@@ -1317,20 +1526,20 @@ func (w *worker) doRefresh(s *state, tokRef, callerName, scopeName, cid, ch stri
 	}
 
 	// subject, audience, authentication time, client are kept
-	if nr.Subject != info.Sub || call.Args[1] != info.Sub || (na != nil && na.Subject != info.Sub) {
+	if (nr != nil && nr.Subject != info.Sub) || call.Args[1] != info.Sub || (na != nil && na.Subject != info.Sub) {
 		return engine.Bad(rule, o.class, "C07/subject-changed/"+rtr, describe())
 	}
-	if !slices.Equal(set(nr.Audience), set(info.Aud)) || (na != nil && !slices.Equal(set(na.Audience), set(info.Aud))) {
+	if (nr != nil && !slices.Equal(set(nr.Audience), set(info.Aud))) || (na != nil && !slices.Equal(set(na.Audience), set(info.Aud))) {
 		return engine.Bad(rule, o.class, "C07/audience-changed/"+rtr, describe())
 	}
-	if nr.AuthTime.Unix() != info.AuthTime {
+	if nr != nil && nr.AuthTime.Unix() != info.AuthTime {
 		return engine.Bad(rule, o.class, "C07/auth-time-changed/"+rtr, describe())
 	}
-	if nr.ClientID != info.Client || (na != nil && na.ClientID != info.Client) {
+	if (nr != nil && nr.ClientID != info.Client) || (na != nil && na.ClientID != info.Client) {
 		return engine.Bad(rule, o.class, "C07/client-changed/"+rtr, describe())
 	}
-	// the presented token has been rotated away
-	if _, still := s.St.Refreshes[tok]; still {
+	// the presented token has been rotated away (unless the storage handed the same string back)
+	if _, still := s.St.Refreshes[tok]; still && rotated.NewRT != tok {
 		return engine.Bad(rule, o.class, "C07/no-rotation/"+rtr, describe()+" presented token still live in storage")
 	}
 
@@ -1377,18 +1586,44 @@ func (w *worker) doRefresh(s *state, tokRef, callerName, scopeName, cid, ch stri
 		}
 	}
 
-	// ---- advance the automaton ----
-	info.Live = false
-	if old := s.Fam[fam].Old; old != "" {
-		delete(s.Auto, old)
+	// the fault points of this caller come from a probe request; a served plain request that makes a storage call
+	// the probe did not show means that not every call of the journal is being failed
+	if x.plain() && tag == "" && len(p.A.FaultKinds) > 0 && cd.Authed == "yes" {
+		for _, pt := range journalPoints(w.r.Core.JournalCopy()) {
+			if !slices.Contains(p.faultPts[cd.Name], pt) {
+				p.capOnce.Do(func() {
+					p.c.Cap(fmt.Sprintf("%s: a refresh of caller %s makes storage call %s which the probe request did not make: not every storage call of the journal is failed", p.name(), cd.Name, pt))
+				})
+			}
+		}
 	}
-	s.Fam[fam].Old = tok
-	s.Fam[fam].Cur = newRT
-	ni := info.clone()
-	ni.Live = true
-	ni.Granted = set(nr.Scopes) // == want unless the empty-scope reading kept the grant
-	s.Auto[newRT] = ni
-	w.advanced = true
+
+	// ---- advance the automaton ----
+	switch {
+	case rotated.NewRT == tok:
+		// the storage handed the presented string back: same token, (possibly narrowed) new grant
+		info.Granted = set(nr.Scopes)
+	case rotated.NewRT == "":
+		// the storage ended the chain: the client holds no current token any more
+		info.Live = false
+		if old := s.Fam[fam].Old; old != "" {
+			delete(s.Auto, old)
+		}
+		s.Fam[fam].Old = tok
+		s.Fam[fam].Cur = ""
+	default:
+		info.Live = false
+		if old := s.Fam[fam].Old; old != "" {
+			delete(s.Auto, old)
+		}
+		s.Fam[fam].Old = tok
+		s.Fam[fam].Cur = newRT
+		ni := info.clone()
+		ni.Live = true
+		ni.Granted = set(nr.Scopes) // == want unless the empty-scope reading kept the grant
+		s.Auto[newRT] = ni
+	}
+	w.advanced, w.leaf = true, false
 	return res
 }
 
@@ -1469,13 +1704,17 @@ func TestCheck(t *testing.T) {
 		"with a scope list that keeps and one that exceeds the grant); every transition = one request on the real token endpoint, judged on " +
 		"response + storage journal + resulting storage records by a reference automaton rt -> (client, granted, sub, aud, auth_time, live) and a reference " +
 		"reading of 'authenticated client' (set of clients the request proves to be; a form client_id proves nothing for a confidential client); " +
+		"storage parts: {owner of every current token} x {rotation call returns no new refresh token, the same string, a string with reserved characters} x {scope lists}, and " +
+		"{owner's refresh} x {every (storage method, occurrence) of the request's journal fails} x {opaque error, op.ErrInvalidRefreshToken plain/wrapped, *oidc.Error, op.StatusError, context errors; Create* calls also with values next to the error}; " +
 		"parts = router x {refresh grant supported, not supported}; distinct = (part, oracle rule, observed outcome class)")
 	c.Assume("refstore (the rig's storage) implements the storage contract: rotation in CreateAccessAndRefreshTokens, the new refresh token stores the request's current scopes",
 		"clients 'lapsed' / 'jlapsed' / 'plapsed' obtained their refresh token while registered for the refresh grant and are not registered for it during the history; operation lapse|<client> withdraws the registration of a client in mid-history (the registration is edited between two requests)",
 		"secret of a basic-registered client sent in the body, a public client identified through the Authorization header or sending a secret, an assertion without client_assertion_type, and 'scope=' present but empty, are judged Either",
 		"a request that names two different clients (credentials of one, form client_id or second credential of another) and a request whose parameters travel outside the form body may be refused or honoured (Either) when the token's owner is among the clients it proves to be; it must be refused when the owner is not; parameters in the URL query are either not honoured at all or honoured like body parameters",
 		"on success the new tokens must carry exactly the requested scope set (reading of 'narrowed scope for this issuance'); order and duplicates are ignored",
-		"signature of the ID token is not checked here (C06); expiry of refresh tokens is not in the alphabet (C08)")
+		"signature of the ID token is not checked here (C06); expiry of refresh tokens is not in the alphabet (C08)",
+		"retStore (checks/c07) forwards every call to refstore and records the answers of the Create* calls; the response's refresh_token is compared with exactly what CreateAccessAndRefreshTokens returned for that request (nothing when it returned nothing)",
+		"a request during which the first call of GetClientByClientID / AuthorizeClientIDSecret / GetKeyByIDAndClientID / TokenRequestByRefreshToken / CreateAccessAndRefreshTokens fails before anything was rotated (and is not made again) must not succeed, whatever the error value; failures of later storage calls, and a storage that returns no new refresh token or the presented string again, are judged Either (when served, every success obligation applies); a faulted request continues the history only when the storage rotated the presented token before the failure: the client then holds no current token any more (response lost), the used-up token stays presentable")
 	type run struct {
 		Suffix string
 		A      alphabet
@@ -1492,7 +1731,12 @@ func TestCheck(t *testing.T) {
 		Cids: cidsQuick, Chans: chansQuick, Lite: liteScopes, LiteChan: liteScopes}, 12, true, nil},
 		// registered method x presented credential x provider flags
 		{"/methods", alphabet{Fams: famsMethods(), Callers: callersMethods(), Scopes: scopesMethods(),
-			OwnerScopes: scopesNearMiss(), Cids: cidsQuick, Lite: liteScopes, Flags: true}, 12, false, flagGrid}}
+			OwnerScopes: scopesNearMiss(), Cids: cidsQuick, Lite: liteScopes, Flags: true}, 12, false, flagGrid},
+		// storage dimensions: answers of the rotation call x every storage call of the refresh journal failing with every error kind
+		{"/storage-a", alphabet{Fams: famsStorageA(), Callers: callersStorage(), Scopes: scopesLapse(),
+			Rets: retModes, RetScopes: []string{"absent", "o", "off"}, FaultKinds: faultKinds(8), FaultScopes: []string{"absent"}}, 12, false, nil},
+		{"/storage-b", alphabet{Fams: famsStorageB(), Callers: callersStorage(), Scopes: scopesLapse(),
+			Rets: retModes, RetScopes: []string{"absent", "o", "off"}, FaultKinds: faultKinds(8), FaultScopes: []string{"absent"}}, 12, false, nil}}
 	// Replay mode (always started with tier quick) uses the thorough runs: their alphabets are supersets
 	// of the quick one with the same initial states, and only the part named in the replay file is executed.
 	if c.Thorough() || c.ReplayFile != "" {
@@ -1510,6 +1754,15 @@ func TestCheck(t *testing.T) {
 			// registered method x presented credential (also related secrets, two credentials) x every request shape x the whole flag grid
 			{"/methods", alphabet{Fams: famsMethods(), Callers: callersMethodsThorough(), Scopes: scopesMethodsThorough(), OwnerScopes: scopesNearMiss(), Missing: true,
 				Cids: cidsThorough, Chans: chansQuick, PairCids: []string{"owner"}, Lite: liteScopes, LiteChan: liteScopes, Flags: true}, 16, false, flagGrid},
+			// storage dimensions: the quick parts with every scope list, more error kinds, faults also while the rotated-away token is
+			// presented and while another client presents the token, the request without refresh_token ...
+			{"/storage-a", alphabet{Fams: famsStorageA(), Callers: callersStorage(), Scopes: scopesLapse(), Missing: true,
+				Rets: retModes, RetScopes: scopeNames(scopesLapse()), FaultKinds: faultKinds(99), FaultScopes: []string{"absent", "o", "S0+phone"}, FaultOld: true, FaultForeign: true}, 16, false, nil},
+			{"/storage-b", alphabet{Fams: famsStorageB(), Callers: callersStorage(), Scopes: scopesLapse(), Missing: true,
+				Rets: retModes, RetScopes: scopeNames(scopesLapse()), FaultKinds: faultKinds(99), FaultScopes: []string{"absent", "o", "S0+phone"}, FaultOld: true, FaultForeign: true}, 16, false, nil},
+			// ... and three owners of three authentication methods (client_secret_post among them) in one history
+			{"/storage-c", alphabet{Fams: famsStorageC(), Callers: callersStorageC(), Scopes: scopesLapse(),
+				Rets: retModes, RetScopes: []string{"absent", "o", "off"}, FaultKinds: faultKinds(8), FaultScopes: []string{"absent"}}, 16, false, nil},
 		}
 	}
 	var desc []map[string]any
@@ -1518,9 +1771,17 @@ func TestCheck(t *testing.T) {
 		desc = append(desc, map[string]any{"part_suffix": r.Suffix, "families": r.A.Fams, "callers": r.A.Callers, "scope_lists": r.A.Scopes, "scope_lists_of_plainly_authenticated_callers": r.A.OwnerScopes,
 			"missing_token": r.A.Missing, "form_client_id": r.A.Cids, "channels": r.A.Chans, "form_client_id_x_every_channel": r.A.PairCids,
 			"scope_lists_with_other_client_id": r.A.Lite, "scope_lists_with_other_channel": r.A.LiteChan, "registration_withdrawn_in_history": r.A.Lapse, "max_depth": r.Depth, "refresh_off_too": r.Off,
+			"storage_rotation_answers": r.A.Rets, "scope_lists_with_rotation_answers": r.A.RetScopes, "storage_fault_error_kinds": r.A.FaultKinds, "scope_lists_with_faults": r.A.FaultScopes,
+			"faults_with_rotated_away_token": r.A.FaultOld, "faults_with_foreign_callers": r.A.FaultForeign,
 			"provider_flags_post_pkjwt": map[bool][][2]bool{true: allOn, false: r.Flags}[r.Flags == nil]})
 	}
 	c.Extra("alphabet", desc)
+	// development aid: VERIF_C07_ONLY=<substring of a part name> runs those parts only (the run is then reported as capped)
+	only := os.Getenv("VERIF_C07_ONLY")
+	if only != "" && c.ReplayFile == "" {
+		c.Cap("VERIF_C07_ONLY=" + only + ": only the parts whose name contains it were explored")
+	}
+	faultPoints := map[string]map[string][]string{}
 	for _, r := range runs {
 		for router := 0; router < 2; router++ {
 			for _, on := range []bool{true, false} {
@@ -1533,9 +1794,17 @@ func TestCheck(t *testing.T) {
 				}
 				for _, fl := range flags {
 					p := &part{Router: router, RefreshOn: on, PostOn: fl[0], JwtOn: fl[1], Suffix: r.Suffix, A: r.A, c: c, t: t}
+					if only != "" && !strings.Contains(p.name(), only) {
+						continue
+					}
+					init := p.initState()
+					p.probe(init)
+					if len(p.A.FaultKinds) > 0 {
+						faultPoints[p.name()] = p.faultPts
+					}
 					engine.RunE2(c, engine.E2[*state]{
 						Part:      p.name(),
-						Init:      p.initState(),
+						Init:      init,
 						Ops:       p.ops,
 						NewStep:   p.newStep,
 						Canon:     p.canon,
@@ -1551,5 +1820,6 @@ func TestCheck(t *testing.T) {
 			}
 		}
 	}
+	c.Extra("storage_fault_points", faultPoints)
 	c.Finish()
 }
